@@ -312,6 +312,9 @@ class Gen:
         cid, c = a
         k = self.r.random()
         text = None if k < 0.25 else ("" if k < 0.35 else self.text())
+        if k > 0.93:
+            # around and beyond the advertised TOPICLEN (1000): what is announced is what later replies show
+            text = self.text() + " " + "T" * self.r.choice([985, 1000, 1200, 1600])
         return ("act", cid, {"verb": "TOPIC", "chan": c, "text": text})
 
     def g_invite(self, live):
